@@ -56,6 +56,16 @@ def eval_case(case):
                 if df:
                     out.append(O.V("a default-argument simulate() after a run with explicit options differs from the same call on a fresh project",
                                    "C09/options-survive", df[:3]))
+        # (iii') simulate(), backward_simulate(), simulate() on one object: the third run equals the first
+        if case.get("backward_probe"):
+            op = case["ops"][0]
+            bk = dict(op, op="backward", due=bool(case["backward_probe"] & 1), revlog=bool(case["backward_probe"] & 2), max_time=80)
+            bX, trX = sim.run_ops(case, want_snaps=False, ops=[op, bk, op])
+            if all(r["exc"] is None for r in trX):
+                df = O.dump_diff(trX[0]["dump"], trX[2]["dump"])
+                if df:
+                    out.append(O.V("a forward run after a backward run on the same project differs from the forward run before it",
+                                   "C09/after-backward", df[:3]))
     # (iv) hidden state outside the object: default-argument call, log edit, default-argument call on a new object
     if case.get("defaults_probe"):
         ops = [{"op": "simulate_default", "max_time": 40}]
@@ -83,6 +93,7 @@ def gen_cases(rng, n):
         c["alt_ranks"].append([list(range(nt)), list(range(nc))])
         c["alt_ranks"].append([list(range(nt - 1, -1, -1)), list(range(nc - 1, -1, -1))])
         c["defaults_probe"] = (i % 10 == 0)
+        c["backward_probe"] = rng.choice([1, 2, 3, 4]) if i % 4 == 1 else 0
         cases.append(c)
     return cases
 
